@@ -63,6 +63,35 @@ fn build_sorted(keccak: bool, leaves: &[H32]) -> (H32, Vec<Vec<H32>>) {
     (level[0].0, proofs)
 }
 
+/// Sorted-pair tree in which an odd node is paired with a copy of itself (the other common way of
+/// building such trees): the proof of its members then contains a sibling EQUAL to the running node.
+fn build_sorted_dup(keccak: bool, leaves: &[H32]) -> (H32, Vec<Vec<H32>>) {
+    let n = leaves.len();
+    let mut proofs: Vec<Vec<H32>> = vec![vec![]; n];
+    let mut level: Vec<(H32, Vec<usize>)> = leaves.iter().enumerate().map(|(i, l)| (*l, vec![i])).collect();
+    while level.len() > 1 {
+        let mut next = vec![];
+        let mut i = 0;
+        while i < level.len() {
+            let (a, ia) = level[i].clone();
+            let (b, ib) = if i + 1 < level.len() { level[i + 1].clone() } else { (a, vec![]) };
+            for x in &ia {
+                proofs[*x].push(b);
+            }
+            for x in &ib {
+                proofs[*x].push(a);
+            }
+            let hsh = if a <= b { hash(keccak, &a, &b) } else { hash(keccak, &b, &a) };
+            let mut m = ia.clone();
+            m.extend(&ib);
+            next.push((hsh, m));
+            i += 2;
+        }
+        level = next;
+    }
+    (level[0].0, proofs)
+}
+
 /// Positional tree: H(left ‖ right); a level of odd length is padded with a filler unique to that
 /// level, so that no two (index, leaf) pairs share a proof.
 fn build_positional(keccak: bool, leaves: &[H32]) -> (H32, Vec<Vec<H32>>) {
@@ -201,6 +230,39 @@ fn verifier_sweep(cfg: &Cfg, rep: &mut Report) {
                         check(rep, "index-max", call(p, &root, &leaves[i], u32::MAX), false);
                     }
                 }
+                // sorted-pair trees in which a sibling EQUALS the running node: two equal adjacent leaves,
+                // and odd nodes paired with themselves. Membership is still membership; only corruptions
+                // that stay meaningful with repeated values are applied.
+                if !positional && n >= 2 {
+                    for shape in ["equal-adjacent-leaves", "odd-node-paired-with-itself"] {
+                        let mut lv = leaves.clone();
+                        let (root2, proofs2) = if shape == "equal-adjacent-leaves" {
+                            let j = 2 * rng.idx(n / 2);
+                            lv[j + 1] = lv[j];
+                            build_sorted(keccak, &lv)
+                        } else {
+                            build_sorted_dup(keccak, &lv)
+                        };
+                        let idxs: Vec<usize> = if n <= 24 { (0..n).collect() } else { vec![0, 1, n / 2, n - 2, n - 1] };
+                        for i in idxs {
+                            let p = &proofs2[i];
+                            let got = call(p, &root2, &lv[i], 0);
+                            rep.evaluations += 4;
+                            rep.case(format!("{hn}/sorted/{shape}/n-class={}/honest/{}", match n { 2 => "2", 3..=8 => "3-8", _ => ">8" }, match &got { Ok(b) => b.to_string(), Err(f) => f.tag() }));
+                            rep.check("honest", got == Ok(true), &format!("C17/honest/{f}/honest-proof-rejected/{shape}"), || format!("{hn} sorted tree of {n} leaves ({shape}): honest proof of leaf {i} (len {}) -> {got:?}", p.len()));
+                            let mut lf = lv[i];
+                            lf[rng.idx(32)] ^= 1 << rng.idx(8);
+                            let got = call(p, &root2, &lf, 0);
+                            rep.check("corrupt", got != Ok(true), &format!("C17/corrupt/{f}/accepted/leaf-bit"), || format!("{hn} sorted tree of {n} leaves ({shape}), leaf {i}: altered leaf accepted"));
+                            let got = call(p, &rng.bytes(), &lv[i], 0);
+                            rep.check("corrupt", got != Ok(true), &format!("C17/corrupt/{f}/accepted/random-root"), || format!("{hn} sorted tree of {n} leaves ({shape}), leaf {i}: random root accepted"));
+                            let mut q = p.clone();
+                            q.push(rng.bytes());
+                            let got = call(&q, &root2, &lv[i], 0);
+                            rep.check("corrupt", got != Ok(true), &format!("C17/corrupt/{f}/accepted/proof-append"), || format!("{hn} sorted tree of {n} leaves ({shape}), leaf {i}: extended proof accepted"));
+                        }
+                    }
+                }
                 rep.end_history();
             }
         }
@@ -227,7 +289,7 @@ fn distributor(cfg: &Cfg, rep: &mut Report, h: u64, variant: u32) {
     let positional = variant == 1 || variant == 2;
     let users = w.accounts(6);
     let mk_tree = |rng: &mut Rng, n: usize, base: u32| -> (H32, Vec<Vec<H32>>, Vec<(u32, usize, i128)>) {
-        let recs: Vec<(u32, usize, i128)> = (0..n).map(|i| (base + i as u32, rng.idx(6), 1 + rng.below(50) as i128)).collect();
+        let recs: Vec<(u32, usize, i128)> = (0..n).map(|i| (base + i as u32, rng.idx(6), if rng.chance(1, 6) { 0 } else { 1 + rng.below(50) as i128 })).collect();
         let leaves: Vec<H32> = recs.iter().map(|(i, u, a)| leaf_hash(e, keccak, *i, &users[*u], *a)).collect();
         let (root, proofs) = if positional { build_positional(keccak, &leaves) } else { build_sorted(keccak, &leaves) };
         (root, proofs, recs)
@@ -279,7 +341,9 @@ fn distributor(cfg: &Cfg, rep: &mut Report, h: u64, variant: u32) {
         let kind = match k {
             0..=49 => "valid",
             50..=59 => "proof-of-other-index",
-            60..=69 => "wrong-amount",
+            60..=64 => "wrong-amount",
+            65..=67 => "zero-amount",
+            68..=69 => "negative-amount",
             70..=79 => "wrong-receiver",
             80..=89 => "wrong-index-same-proof",
             _ => "empty-proof",
@@ -289,11 +353,13 @@ fn distributor(cfg: &Cfg, rep: &mut Report, h: u64, variant: u32) {
             "valid" => (idx, usr, amt, proofs[i].clone()),
             "proof-of-other-index" => (idx, usr, amt, proofs[j].clone()),
             "wrong-amount" => (idx, usr, amt + 1, proofs[i].clone()),
+            "zero-amount" => (idx, usr, 0, proofs[i].clone()),
+            "negative-amount" => (idx, usr, -amt - 1, proofs[i].clone()),
             "wrong-receiver" => (idx, (usr + 1) % 6, amt, proofs[i].clone()),
             "wrong-index-same-proof" => (recs[j].0, usr, amt, proofs[i].clone()),
             _ => (idx, usr, amt, vec![]),
         };
-        let genuine = kind == "valid" || (kind == "proof-of-other-index" && proofs[j] == proofs[i] && recs.len() == 1) || (kind == "empty-proof" && recs.len() == 1);
+        let genuine = kind == "valid" || (kind == "zero-amount" && amt == 0) || (kind == "proof-of-other-index" && proofs[j] == proofs[i] && recs.len() == 1) || (kind == "empty-proof" && recs.len() == 1);
         let before: Vec<bool> = (0..20u32).map(|x| invoke::<bool>(e, &c, "is_claimed", args!(e, x)).unwrap()).collect();
         e.mock_all_auths();
         let got: Result<(), Fail> = invoke(e, &c, "claim", args!(e, pidx, users[pusr], pamt, to_vec(e, &proof)));
@@ -329,12 +395,12 @@ fn distributor(cfg: &Cfg, rep: &mut Report, h: u64, variant: u32) {
 }
 
 pub fn run(cfg: &Cfg, rep: &mut Report) {
-    rep.rule = "(a) for both hashers and both forms (sorted-pair, positional with index), every tree size 1..=65 (thorough 400) with fresh random leaves (split over shards): every leaf (beyond 40 leaves: first, last and a sample) with its honest proof from an independent tree builder, and every single corruption: one bit in each proof element, adjacent swap, first/last dropped, last duplicated, element appended, other leaf, random leaf, leaf bit, random root, root bit, every other index < 2^len (sampled beyond 64), index = 2^len and u32::MAX; (b) distributor histories on a wrapper (Keccak sorted, Keccak indexed, Sha256 indexed) and the airdrop example: valid claims, repeats, proofs of other indices, wrong amount/receiver/index, empty proof, root changes. Distinct case = (hasher, form, tree-size class, leaf position, corruption kind, outcome).".into();
+    rep.rule = "(a) for both hashers and both forms (sorted-pair, positional with index), every tree size 1..=65 (thorough 400) with fresh random leaves (split over shards): every leaf (beyond 40 leaves: first, last and a sample) with its honest proof from an independent tree builder, and every single corruption: one bit in each proof element, adjacent swap, first/last dropped, last duplicated, element appended, other leaf, random leaf, leaf bit, random root, root bit, every other index < 2^len (sampled beyond 64), index = 2^len and u32::MAX; (b) distributor histories on a wrapper (Keccak sorted, Keccak indexed, Sha256 indexed) and the airdrop example: valid claims (a sixth of the leaves allocate 0), repeats, proofs of other indices, wrong / zero / negative amount, wrong receiver / index, empty proof, root changes, ledger jumps. Sorted-pair trees are also built with two equal adjacent leaves and with odd nodes paired with themselves (a sibling equal to the running node). Distinct case = (hasher, form, tree-size class, leaf position, corruption kind, outcome).".into();
     verifier_sweep(cfg, rep);
     let nh = cfg.pick(30u64, 1500);
     for v in 0..4u32 {
         for k in 0..nh {
-            let h = 10_000 + v as u64 * 1000 + k;
+            let h = 10_000 + v as u64 * 100_000 + k;
             if cfg.runs(h) {
                 distributor(cfg, rep, h, v);
             }
